@@ -23,7 +23,8 @@ func RedactSQLQuery(sql string) (string, error) {
 
 // redactValues replaces every literal value of the statement with a placeholder. Normalize converts the values
 // that can become bind variables; the literals it leaves in place (hexadecimal and bit literals, numbers that are
-// not valid 64-bit integers or floats, the separator of GROUP_CONCAT) are masked here, since the result is meant
+// not valid 64-bit integers or floats, the separator of GROUP_CONCAT, the pattern of SHOW ... LIKE, aliases written
+// as strings) are masked here, since the result is meant
 // for display and logs only.
 func redactValues(stmt Statement, bv map[string]*querypb.BindVariable) {
 	Normalize(stmt, bv, ValueMask)
@@ -40,6 +41,17 @@ func redactValues(stmt Statement, bv map[string]*querypb.BindVariable) {
 		case *GroupConcatExpr:
 			if node.Separator != "" {
 				node.Separator = " separator '" + ValueMask + "'"
+			}
+		case *ShowFilter:
+			if node.Like != "" {
+				node.Like = ValueMask
+			}
+		case *AliasedExpr:
+			// an alias written as a string is a string taken from the statement; typed literals and adjacent
+			// strings ("timestamp '...'", "'a' 'b'") are parsed as an expression with such an alias
+			if node.As.quote == '\'' {
+				counter++
+				node.As = NewColIdent(ValueMask + strconv.Itoa(counter))
 			}
 		}
 		return true, nil
